@@ -1,4 +1,5 @@
 """C13 - screening returns a self-consistent induced vector potential or fails."""
+from ..common import aeq  # noqa: F401
 from .. import scen
 from ..checkers import C13Screening
 from ..common import Violation, substream
@@ -48,6 +49,7 @@ def gen(seed, idx, tier):
 
 def post(sim, h):
     import numpy as np
+    from ..common import aeq  # noqa: E402
 
     from .. import recorder
 
@@ -62,7 +64,7 @@ def post(sim, h):
         exp = recorder.state_after(h, fr["step"])
         if exp is None:
             continue
-        bad = [n for n in fr["data"] if n in exp and exp[n] is not None and not np.array_equal(np.asarray(fr["data"][n]), np.asarray(exp[n]))]
+        bad = [n for n in fr["data"] if n in exp and exp[n] is not None and not aeq(np.asarray(fr["data"][n]), np.asarray(exp[n]))]
         if bad:
             V.append(Violation("frame-vs-accepted-state", f"frame of step {fr['step']} differs from the accepted state after {fr['step']} updates in {bad}", step=fr["step"], cancelled=bool(h.fire_info)))
             break
